@@ -10,7 +10,9 @@ from ..panics import sites_reachable
 # assumptions under which overflow asserts on clock arithmetic are discharged (thorough tier)
 CLOCK_BOUND = 2**62
 INFALLIBLE_JSON = {"bool", "u8", "u16", "u32", "u64", "usize", "i8", "i16", "i32", "i64", "isize", "std::string::String", "str", "f64",
-                   "std::option::Option<std::string::String>", "std::vec::Vec<std::string::String>"}
+                   "std::option::Option<std::string::String>", "std::vec::Vec<std::string::String>",
+                   # Value -> Value: map keys are Strings and numbers are finite by construction, the two things the Value serializer rejects
+                   "serde_json::Value"}
 
 
 def _field_invariants(entry):
